@@ -200,8 +200,8 @@ def cex_of(vm, a, b, op, extra=None):
     return d
 
 
-def h_table(vm, mir, ops, ka):
-    a = C14.mk(vm, 'a', [ka]); b = C14.mk(vm, 'b')
+def h_table(vm, mir, ops, ka, kb=None):
+    a = C14.mk(vm, 'a', [ka] if ka is not None else None); b = C14.mk(vm, 'b', [kb] if kb is not None else None)
     va = view(vm, a); vb = view(vm, b)
     op = ops[vm.fork(len(ops), note='op')] if len(ops) > 1 else ops[0]
     vm.describe = cex_of(vm, a, b, op)
